@@ -55,6 +55,9 @@ type Factory struct {
 	OnStart func(c *Cmd)
 	// OnStop is called for every Stop(sig, parentOnly); the default reaction (nil) is to exit with -1.
 	OnStop func(c *Cmd, sig int, parentOnly bool)
+	// StopErr, when set, decides the error that Stop returns (after OnStop / the default reaction ran); nil = no error.
+	// A command whose Stop "fails" is typically left alive by OnStop (e.g. EPERM on a process of another user).
+	StopErr func(c *Cmd, sig int, parentOnly bool) error
 	// Event receives "launch"(ok), "wait_enter", "wait_return", "exit_code"(code), "signal"(sig,parentOnly).
 	Event func(c *Cmd, label string, args ...interface{})
 }
@@ -160,6 +163,9 @@ func (c *Cmd) Stop(sig int, parentOnly bool) error {
 		c.F.OnStop(c, sig, parentOnly)
 	} else {
 		c.Exit(-1)
+	}
+	if c.F.StopErr != nil {
+		return c.F.StopErr(c, sig, parentOnly)
 	}
 	return nil
 }
